@@ -159,7 +159,14 @@ impl RingW {
             (k, data, err)
         });
         match r {
-            Ok((k, data, err)) => self.obs(json!({"ev":"op","op":op,"n":n,"off":off,"decline":decline,"k":k,"data":data,"err":err})),
+            Ok((k, data, err)) => {
+                // the observers are code under test as well (window() underflows when the length exceeds the capacity)
+                let v = json!({"ev":"op","op":op,"n":n,"off":off,"decline":decline,"k":k,"data":data,"err":err});
+                match guarded(|| self.obs(v)) {
+                    Ok(v) => v,
+                    Err(m) => json!({"ev":"panic","op":op,"n":n,"off":off,"msg":format!("observer: {}", m)}),
+                }
+            }
             Err(m) => {
                 self.tok = tok0;
                 json!({"ev":"panic","op":op,"n":n,"off":off,"msg":m})
